@@ -55,3 +55,49 @@ package agent
 //@ prop C20
 //@ modifies *
 //@ at call forward.(*Handler).HandleStreamOpen assert hasprefix(destAddr, protocol.ForwardStreamPrefix) && $5 == destAddr[len(protocol.ForwardStreamPrefix):]
+
+// ---- C07: chunking on the ingress side and exact re-assembly ----
+//
+// meshConn.Write seals consecutive, non-empty pieces of b of at most 16356
+// bytes (so every ciphertext is at most 16384 bytes), hands each as the whole
+// payload of one STREAM_DATA frame for this stream to the next hop, and
+// reports exactly the number of bytes handed over. Ghost c07sent counts the
+// bytes of b handed over so far; each piece starts where the previous ended.
+//
+// meshConn.Read returns the plaintext of received messages in order: whatever
+// does not fit into the caller's buffer is kept and returned first by the
+// next calls, byte for byte.
+
+//@ ghost var c07sent int
+
+//@ func (*meshConn).Write
+//@ prop C07
+//@ check bounds
+//@ modifies *, c07sent
+//@ after call GetSessionKey set c07sent = 0
+//@ loop 0 invariant 0 <= offset && offset <= len(b) && c07sent == offset
+//@ at call Encrypt assert base($1) == base(b) && offset($1) == offset(b) + c07sent && len($1) >= 1 && len($1) <= 16356 && c07sent + len($1) <= len(b)
+//@ at call Encrypt let chunkLen = len($1)
+//@ after call Encrypt let ct = $ret0
+//@ at call SendToPeer assert $2.Payload == ct && len($2.Payload) <= 16384 && $2.Type == protocol.FrameStreamData && $2.Flags == 0 && $2.StreamID == c.streamID && $1 == c.peerID
+//@ after call SendToPeer set c07sent = ite($ret == nil, c07sent + chunkLen, c07sent)
+//@ ensures 0 <= result && result <= len(b)
+//@ ensures err == nil ==> result == len(b)
+//@ ensures err == nil && len(b) > 0 ==> c07sent == len(b)
+
+//@ func (*meshConn).Read
+//@ prop C07
+//@ check bounds
+//@ modifies *
+//@ requires 0 <= c.readOffset && c.readOffset <= len(c.readBuf)
+//@ after call Decrypt let pt = $ret0
+//@ ensures 0 <= c.readOffset && c.readOffset <= len(c.readBuf)
+//@ ensures 0 <= result && result <= len(b)
+//@ ensures old(c.readOffset) < len(old(c.readBuf)) ==> err == nil && result == min(len(b), len(old(c.readBuf)) - old(c.readOffset))
+//@ ensures old(c.readOffset) < len(old(c.readBuf)) ==> forall i in 0..result: b[i] == old(c.readBuf[c.readOffset + i])
+//@ ensures old(c.readOffset) < len(old(c.readBuf)) && result < len(old(c.readBuf)) - old(c.readOffset) ==> c.readBuf == old(c.readBuf) && c.readOffset == old(c.readOffset) + result
+//@ ensures old(c.readOffset) < len(old(c.readBuf)) && result == len(old(c.readBuf)) - old(c.readOffset) ==> c.readOffset == len(c.readBuf)
+//@ after call Decrypt let ptBytes = arr($ret0)
+//@ ensures old(c.readOffset) >= len(old(c.readBuf)) && err == nil ==> result == min(len(b), len(pt)) && forall i in 0..result: b[i] == ptBytes[offset(pt) + i]
+//@ ensures old(c.readOffset) >= len(old(c.readBuf)) && err == nil && result < len(pt) ==> c.readBuf == pt && c.readOffset == result
+//@ ensures old(c.readOffset) >= len(old(c.readBuf)) && err == nil && result == len(pt) ==> c.readOffset == len(c.readBuf)
